@@ -213,6 +213,54 @@ def check_validated_copies(mir, res, rule):
                         f_, l_ = parse_at(s_["span"]["at"])
                         res.violate(rule, "declaration-mutated|%s" % f.path, "%s:%d" % (f_, l_), "a declaration value (`%s` of type %s) is mutably borrowed in the validation stage: what is validated and handed on is no longer what was declared" % (place_str(rv["pl"]), ty["s"][:60]))
     res.floor("validated nonterminal construction sites", n, 2)
+    # a name that goes through a validator comes back unchanged: every Ok result of the validator wraps its own argument
+    n_v = 0
+    for f in mir.fns.values():
+        if f.derived or "/validate_ast/" not in f.file:
+            continue
+        ex = None
+        for b in f.blocks:
+            if b["cleanup"]:
+                continue
+            for s_ in b["stmts"]:
+                if s_["k"] != "assign" or s_["rv"]["k"] != "agg" or s_["rv"].get("ak") != "adt" or not re.search(r"validated_file::(TerminalEnum|TerminalVariant)$", s_["rv"].get("adt", "")):
+                    continue
+                ex = ex or Exprs(f)
+                for fl, o in zip(s_["rv"]["fields"], s_["rv"]["ops"]):
+                    if fl not in ("name", "dollarless_name"):
+                        continue
+                    v = canon(ex.operand(o))
+                    for m_ in re.finditer(r"Try@Result::branch\(((?:\w+::)*\w+)\((param\d+(?:\.\w+)*)\)\)", v):
+                        cands = [g for g in mir.fns.values() if g.kind == "Fn" and g.path.endswith("::" + m_.group(1).rsplit("::", 1)[-1]) and "/validate_ast/" in g.file]
+                        if len(cands) != 1:
+                            continue
+                        g = cands[0]
+                        oks = []
+                        for _hop in range(3):
+                            gx = Exprs(g)
+                            for gb in g.blocks:
+                                if gb["cleanup"]:
+                                    continue
+                                for gs in gb["stmts"]:
+                                    if gs["k"] == "assign" and gs["rv"]["k"] == "agg" and gs["rv"].get("adt") == "std::result::Result" and gs["rv"].get("variant") == "Ok" and gs["rv"]["ops"]:
+                                        oks.append(canon(gx.operand(gs["rv"]["ops"][0])))
+                            if oks:
+                                break
+                            # a delegating validator: `fn v(x) { w(x.name, x.position) }` — follow it when its own first
+                            # argument is handed on as the callee's first argument
+                            md = re.match(r"^((?:\w+::)*\w+)\((param1(?:\.\w+)*)(?:, .*)?\)$", canon(gx.local(0)))
+                            nxt = [h for h in mir.fns.values() if md and h.kind == "Fn" and h.path.endswith("::" + md.group(1).rsplit("::", 1)[-1]) and "/validate_ast/" in h.file]
+                            if len(nxt) != 1:
+                                break
+                            g = nxt[0]
+                        if not oks:
+                            continue
+                        n_v += 1
+                        good = all(re.match(r"^(param1(\.\w+)*|tuple\{\}|const\(\(\)\))$", x) for x in oks)
+                        res.inst(rule, "validator-identity|%s" % g.name, g.where, True, "Ok results %s" % oks)
+                        if not good:
+                            res.violate(rule, "validator-identity|%s" % g.name, g.where, "`%s` validates the name it is given and hands it on as field `%s`: its Ok result must be that very argument, found %s — the emitted item would carry another name than the declared one" % (g.name, fl, oks))
+    res.floor("names taken through a validator into the validated terminal enum", n_v, 1)
 
 
 def run(mir, res, rule):
